@@ -53,7 +53,7 @@ def shards(tier, seed):
             'n_random': 3000 if q else 120000}]
     for i, g in enumerate(common.split(common.ALL_INDEXES, 8)):
         out.append({'name': 'meth%d' % i, 'what': 'methods', 'indexes': g,
-                    'n_random': 20 if q else 500})
+                    'n_random': 20 if q else 2000})
     out.append({'name': 'props', 'what': 'props',
                 'n_random': 600 if q else 30000})
     out.append({'name': 'bits', 'what': 'bits'})
